@@ -29,9 +29,12 @@ JOBS = 10
 
 # tolerances (relative to the stated scale).  Measured maxima on the unchanged tree are in brackets.
 TOL_LIB = 1e-11       # miescatlib sums vs model, scale = sum of magnitudes            [<= 4e-16]
-TOL_COEF = 1e-7       # scatcoeffs vs Bohren-Huffman model on kernel values, per coef   [<= 3e-11, cancellation]
+TOL_COEF = 1e-8       # scatcoeffs vs Bohren-Huffman model on the kernel values, per coefficient, times
+#                       (1 + (0.1/x)^2): the float numerator (D m + n/x) psi_n - psi_{n-1} cancels like 1/x^2
+#                       [<= 1e-12 for x >= 0.1; 7e-10 at x = 0.003]
 TOL_XSEC = 1e-9       # calc_cross_sections vs model on the same coefficients, / cext   [<= 1e-15]
-TOL_S = 2e-6          # calc_scat_matrix vs model; asm_mie_far forms (2n+1)/(n(n+1)) in REAL*4 [<= 6e-8]
+TOL_S = 2e-6          # calc_scat_matrix vs model, scale = sum of |terms|; asm_mie_far forms (2n+1)/(n(n+1))
+#                       in REAL*4, so each term carries a relative error up to 2^-24 = 6e-8  [<= 6e-8]
 TOL_MSF = 1e-11       # Multisphere helper formulas vs model                            [<= 1e-15]
 TOL_SPLIT = 1e-12     # |cext - cscat - cabs| / cext                                     [<= 2e-16]
 TOL_ABS0 = 1e-10      # |cabs| / cext for a real index (Mie)                             [<= 2e-15]
@@ -40,6 +43,11 @@ TOL_OT = 2e-6         # optical theorem between the two entry points, relative  
 TOL_QUAD = 5e-6       # quadrature of |S|^2 vs cscat (rel) and g (abs)                    [<= 2e-7]
 TOL_RAY = 1e-3        # Rayleigh formula, x <= 0.01, |m| <= 2.2                           [<= 2e-4]
 TOL_MS = 1e-4         # Multisphere(1 sphere) vs Mie, / cext; g absolute                  [<= 3e-6]
+
+
+import os
+_TS = float(os.environ.get("C03_TOLSCALE", "1"))   # measurement aid: shrink the correspondence tolerances
+TOL_LIB, TOL_COEF, TOL_XSEC, TOL_S, TOL_MSF = (TOL_LIB * _TS, TOL_COEF * _TS, TOL_XSEC * _TS, TOL_S * _TS, TOL_MSF * _TS)
 
 
 class Stat:
@@ -102,8 +110,8 @@ def coeflit(al, bl):
     return listlit(["(%s, %s)" % (cq(a), cq(b)) for a, b in zip(al, bl)])
 
 
-def report(ctx, tag, exprs, metas, names):
-    codes, errors = run_codes(tag, exprs)
+def report(ctx, tag, exprs, metas, names, chunk=40):
+    codes, errors = run_codes(tag, exprs, chunk=chunk)
     ctx.corr_cases += len(exprs)
     for e in errors:
         ctx.violation("corr-eval-error:" + tag, "model evaluation failed: " + e[:300],
@@ -256,8 +264,9 @@ def stage_coef(ctx):
                 if not STAT.see("coef:Re=|.|^2", abs(z.real - abs(z) ** 2), 1e-9 * abs(z) + 1e-300):
                     ctx.violation("coef:real-form", "Re a != |a|^2 for a real relative index",
                                   dict(kind="real-form", m=m, x=x, coef=complex(z)))
+        tolc = TOL_COEF * (1.0 + (0.1 / x) ** 2)
         e = ("coefs_near %s (scatcoeffs QOr %s %s %s %s %s) %s" % (
-            qlit(TOL_COEF), cq(m), qlit(x), listlit([cq(d) for d in D]),
+            qlit(tolc), cq(m), qlit(x), listlit([cq(d) for d in D]),
             listlit([qlit(float(p)) for p in psi]), listlit([qlit(float(c)) for c in chi]),
             coeflit(got[0], got[1])))
         exprs.append("if %s then 0%%Z else 1%%Z" % e)
@@ -265,7 +274,7 @@ def stage_coef(ctx):
                           impl=dict(a=[complex(z) for z in got[0]], b=[complex(z) for z in got[1]])))
         ctx.count("coef:" + kind)
         ctx.nontriv(("coef", kind, int(nstop)))
-    report(ctx, "C03coef", exprs, metas, ["scatcoeffs"])
+    report(ctx, "C03coef", exprs, metas, ["scatcoeffs"], chunk=max(2, len(exprs) // (3 * JOBS)))
 
 
 def smat(S):
@@ -276,6 +285,7 @@ def stage_mie(ctx):
     """public entry points vs model on the implementation's own coefficients"""
     import numpy as np
     from holopy.scattering import Mie, calc_cross_sections, calc_scat_matrix
+    from holopy.scattering.theory.mie_f import mieangfuncs
     from holopy.core.metadata import detector_points
     rng = ctx.subrng("mie")
     exprs, metas = [], []
@@ -284,18 +294,25 @@ def stage_mie(ctx):
         pol = gen_pol(rng)
         co = Mie()._scat_coeffs(s, k, nm)
         cs4 = [float(v) for v in calc_cross_sections(s, nm, wl, pol).values]
-        thetas = [0.0, rng.uniform(0.01, 3.13), rng.choice([math.pi / 2, math.pi, rng.uniform(0, 3.14)])]
+        # generic angles: cos(theta) is a SHORT dyadic mu (so that pi_n(mu), a degree n-1 polynomial, stays small in
+        # Q); the implementation receives theta = arccos(mu) and forms dcos(theta) = mu (1 + O(1e-16))
+        mus = [1.0] + [rng.randint(-31, 31) / 32.0 for _ in range(ctx.n(1, 2))]
+        thetas = [math.acos(mu) for mu in mus]
         phis = [rng.uniform(0, 6.28) for _ in thetas]
         S = calc_scat_matrix(detector_points(theta=np.array(thetas), phi=np.array(phis)), s, nm, wl).values
         lst = coeflit(co[0], co[1])
         checks = ["near4 %s %s (calc_cross_sections_mie QOr %s %s %s cs) (%s, %s, %s, %s)" % (
             qlit(TOL_XSEC), qlit(cs4[2]), qlit(math.pi), qlit(nm), qlit(wl),
             qlit(cs4[0]), qlit(cs4[1]), qlit(cs4[2]), qlit(cs4[3]))]
-        for t, Si in zip(thetas, S):
-            sc = float(np.abs(Si).max())
+        for mu, t, Si in zip(mus, thetas, S):
+            assert abs(math.cos(t) - mu) < 1e-15
+            # scale: sum of the magnitudes of the terms (pi_n, tau_n from the implementation, for the scale only)
+            pis, taus = mieangfuncs.pisandtaus(co.shape[1], t)
+            ns = np.arange(1, co.shape[1] + 1)
+            sc = float(((2 * ns + 1) / (ns * (ns + 1)) * (np.abs(co[0]) + np.abs(co[1])) * (np.abs(pis) + np.abs(taus))).sum())
             checks.append("(let '(m00, m01, m10, m11) := asm_mie_far QOr cs %s in let '(i00, i01, i10, i11) := %s in "
                           "cnear %s %s m00 i00 && cnear %s %s m01 i01 && cnear %s %s m10 i10 && cnear %s %s m11 i11)" % (
-                              qlit(math.cos(t)), smat(Si), qlit(TOL_S), qlit(sc), qlit(TOL_S), qlit(sc),
+                              qlit(mu), smat(Si), qlit(TOL_S), qlit(sc), qlit(TOL_S), qlit(sc),
                               qlit(TOL_S), qlit(sc), qlit(TOL_S), qlit(sc)))
         exprs.append(("let cs := %s in " % lst) + bits(checks))
         metas.append(dict(stage="mie", sphere=desc, pol=pol, thetas=thetas,
@@ -306,7 +323,7 @@ def stage_mie(ctx):
         if kcase < 2:
             ctx.sample(dict(sphere=desc, cross_sections=cs4, S_forward=complex(S[0][0, 0]), n_coeffs=int(co.shape[1])))
     report(ctx, "C03mie", exprs, metas, ["calc_cross_sections", "scat_matrix(theta=0)", "scat_matrix(theta1)",
-                                          "scat_matrix(theta2)"])
+                                          "scat_matrix(theta2)"], chunk=max(2, len(exprs) // (3 * JOBS)))
 
 
 def synth_amn(rng, lmax):
@@ -583,15 +600,23 @@ def run(ctx):
         "oracle: multilayer recursion (Yang 2003) producing H^a, H^b; only its last Bohren-Huffman step is modelled",
         "oracle: scsmfo_min.amncalc expansion coefficients, uts_scsmfo.asm forward matrix, scipy dblquad in _calc_asym",
         "oracle: numpy.polynomial.legendre.leggauss nodes/weights (exploration only)"]
-    guarded(ctx, "prove", ctx.prove)
+    import time
+    times = []
+
+    def timed(tag, fn, *a):
+        t = time.time()
+        guarded(ctx, tag, fn, *a)
+        times.append("%s=%.0fs" % (tag, time.time() - t))
+    timed("prove", ctx.prove)
     boot.boot()
-    guarded(ctx, "lib", stage_lib, ctx)
-    guarded(ctx, "coef", stage_coef, ctx)
-    guarded(ctx, "mie", stage_mie, ctx)
-    guarded(ctx, "ms-formulas", stage_ms_formulas, ctx)
-    guarded(ctx, "explore-mie", stage_explore_mie, ctx)
-    guarded(ctx, "rayleigh", stage_rayleigh, ctx)
-    guarded(ctx, "multisphere", stage_multisphere, ctx)
+    timed("lib", stage_lib, ctx)
+    timed("coef", stage_coef, ctx)
+    timed("mie", stage_mie, ctx)
+    timed("ms-formulas", stage_ms_formulas, ctx)
+    timed("explore-mie", stage_explore_mie, ctx)
+    timed("rayleigh", stage_rayleigh, ctx)
+    timed("multisphere", stage_multisphere, ctx)
+    ctx.notes.append("stage wall times: " + ", ".join(times))
     ctx.notes.append("max observed error / tolerance per check: " +
                      ", ".join("%s=%.2g" % kv for kv in sorted(STAT.m.items())))
 
